@@ -192,3 +192,11 @@ pub fn result_is_ok_and<T, E, F: FnOnce(T) -> bool>(this: Result<T, E>, f: F) ->
         Ok(x) => f(x),
     }
 }
+
+/// `std::mem::replace(dest, src)`: read the old value, store the new one, hand the old one back (the `Copy` bound only
+/// exists so that the model can be written in safe Rust; bounds are irrelevant once the MIR is inlined)
+pub fn mem_replace<T: Copy>(dest: &mut T, src: T) -> T {
+    let old = *dest;
+    *dest = src;
+    old
+}
